@@ -607,3 +607,45 @@ def _r10_5(ctx, R):
                  '; '.join('line %d %s' % (b.lineno, src(b)[:50])
                            for b in bad[:3]) or 'ok', func=impl, node=m)
     R.count('R10.5', n, 5)
+
+
+def r108(ctx, R):
+    """An allocation write that succeeds has gone through the one place that
+    moves the generations: in every transaction closure of the allocation
+    writers, every normal path passes the call of replace_all / reshape (a
+    shortcut that answers success without it - "nothing changed" - leaves
+    consumer and provider generations where they were while the consumer's
+    attributes may have been rewritten)."""
+    from psa.rules import c04
+    prog = ctx.prog
+    n = 0
+    for qb in c04.ALLOC_WRITERS:
+        for impl in prog.funcs_named(qb):
+            for c in c04.s_closures(ctx, impl):
+                if ctx.effects.scope_kind(c) != 'writer':
+                    continue
+                wr = [s.node for s in ctx.cg.calls_in(c) if any(
+                    x.qbase in ('placement.objects.allocation:replace_all',
+                                'placement.objects.reshaper:reshape')
+                    for x in s.callees)]
+                if not wr:
+                    continue
+                n += 1
+                g = cfgmod.cfg_of(c)
+                sts = {C.stmt_of(w) for w in wr}
+                ok = g.must_pass(cfgmod.ENTRY, cfgmod.EXIT, sts,
+                                 normal_only=True)
+                R.ob('R10.8', '%s:write-on-every-path' % c.qname, ok,
+                     'every normal path through the write transaction calls '
+                     'the function that writes the allocations and moves the '
+                     'generations', 'ok' if ok else 'a path returns without '
+                     'the write', func=c, node=wr[0])
+    R.count('R10.8', n, 3)
+
+
+_run_c10b = run
+
+
+def run(ctx, R):
+    _run_c10b(ctx, R)
+    r108(ctx, R)
